@@ -49,13 +49,15 @@ where
             }
         }
         1 => {
-            ctx.begin("init: Bump::try_new_in".into());
-            built = Bump::<A, S>::try_new_in(a()).ok();
+            let form = ctx.rng.below(4);
+            ctx.begin(format!("init: Bump::{}", ["try_new_in", "new_in", "try_new", "new"][form]));
+            built = ctor_form(ctx, form, || Bump::<A, S>::try_new_in(a()), || Bump::<A, S>::new_in(a()), || Bump::<A, S>::try_new(), || Bump::<A, S>::new());
         }
         2 => {
             let size = *ctx.rng.pick(&[0usize, 1, 64, 512, 1000, 4096, 5000]);
-            ctx.begin(format!("init: Bump::try_with_size_in({size})"));
-            built = Bump::<A, S>::try_with_size_in(size, a()).ok();
+            let form = ctx.rng.below(4);
+            ctx.begin(format!("init: Bump::{}({size})", ["try_with_size_in", "with_size_in", "try_with_size", "with_size"][form]));
+            built = ctor_form(ctx, form, || Bump::<A, S>::try_with_size_in(size, a()), || Bump::<A, S>::with_size_in(size, a()), || Bump::<A, S>::try_with_size(size), || Bump::<A, S>::with_size(size));
             if let Some(b) = &built {
                 // the chunk is at least as large as asked for, minus the documented 16 bytes of assumed overhead
                 let got = b.stats().size();
@@ -66,8 +68,9 @@ where
         }
         3 => {
             let l = gen_layout(ctx, S::MIN_ALIGN);
-            ctx.begin(format!("init: Bump::try_with_capacity_in(size={} align={})", l.size(), l.align()));
-            built = Bump::<A, S>::try_with_capacity_in(l, a()).ok();
+            let form = ctx.rng.below(4);
+            ctx.begin(format!("init: Bump::{}(size={} align={})", ["try_with_capacity_in", "with_capacity_in", "try_with_capacity", "with_capacity"][form], l.size(), l.align()));
+            built = ctor_form(ctx, form, || Bump::<A, S>::try_with_capacity_in(l, a()), || Bump::<A, S>::with_capacity_in(l, a()), || Bump::<A, S>::try_with_capacity(l), || Bump::<A, S>::with_capacity(l));
             if let Some(b) = &built {
                 // C12: the layout fits without another chunk
                 let calls = ctx.mon.borrow().alloc_calls;
@@ -133,6 +136,26 @@ where
         }
     }
     built
+}
+
+/// One constructor in its four forms (`try_*_in`, `*_in`, `try_*` and `*` with the `Default` base allocator);
+/// a panicking form may only unwind with the allocation-error marker.
+fn ctor_form<B>(ctx: &mut Ctx, form: usize, f0: impl FnOnce() -> Result<B, bump_scope::alloc::AllocError>, f1: impl FnOnce() -> B, f2: impl FnOnce() -> Result<B, bump_scope::alloc::AllocError>, f3: impl FnOnce() -> B) -> Option<B> {
+    let r = guarded(|| match form {
+        0 => f0().ok(),
+        1 => Some(f1()),
+        2 => f2().ok(),
+        _ => Some(f3()),
+    });
+    match r {
+        Ok(b) => b,
+        Err(p) => {
+            if classify(&p) != PanicKind::AllocError {
+                unexpected_panic(ctx, p, "Bump constructor");
+            }
+            None
+        }
+    }
 }
 
 pub struct Plan {
